@@ -3,6 +3,7 @@ from vlib.core import Case, hx
 from vlib import txgen
 
 ID = "C06"
+NEEDS_CLI = True
 RULE = ("op tx.sign <json> <key> -> signing digest, signed bytes, (r, s, parity): field values boundary-biased in [0,2^256), calldata lengths 0..120 exhaustively "
         "(thorough 0..1100) + 255/256/65535/65536, recipients present/absent/null, access lists 0..4 entries x 0..4 slots plus shapes pushing list payloads across 55/56 and 255/256, "
         "every subset of {gasPrice, maxPriorityFeePerGas, maxFeePerGas, accessList} x chain id present/absent (kind selection and refusals), all three kinds, chain ids 0,1,2^64-1,large, both parities (counted); op tx.encode with chosen signatures whose r / s have every byte width 1..32; non-trivial = distinct document; "
@@ -43,6 +44,31 @@ def gen(rng, tier):
             for _ in range(4):
                 j, _ = txgen.rand_tx(rng, kind=kind, chain=chain)
                 cases.append(Case("tx.sign %s %s" % (hx(j), key()), tags=("chain-ids",)))
+    # small fixed fields and a calldata sweep: the payload of the unsigned and of the signed list then takes EVERY length in a
+    # contiguous range that contains 55|56 and 255|256 (list headers change form there), for each kind and recipient form
+    import json as _json2
+    for kind in ("legacy", "eip2930", "eip1559"):
+        for to in ("0x" + "11" * 20, None):
+            for n in list(range(0, 70)) + list(range(150, 270)) if tier == "thorough" else list(range(0, 62)) + list(range(170, 262, 1)):
+                obj = {"nonce": 1, "gas": 21000, "value": 0, "data": "0x" + "ab" * n, "chainId": 1}
+                if to:
+                    obj["to"] = to
+                if kind == "eip1559":
+                    obj["maxPriorityFeePerGas"] = 1
+                    obj["maxFeePerGas"] = 2
+                else:
+                    obj["gasPrice"] = 1
+                if kind != "legacy":
+                    obj["accessList"] = []
+                cases.append(Case("tx.sign %s %s" % (hx(_json2.dumps(obj)), key()), tags=("payload-length-sweep", "kind:" + kind)))
+    # the command-line route for every kind x the override flag x both output modes (the flag waives a refusal, nothing else)
+    from vlib import bip39 as _b39
+    mn_ = hx(" ".join(_b39.rand_phrase(rng, 12)))
+    for kind, chain in (("legacy", "absent"), ("legacy", 0), ("legacy", 1), ("legacy", 2 ** 64 - 1), ("eip2930", None), ("eip1559", None)):
+        for allow in (0, 1):
+            for so in (0, 1):
+                j, _ = txgen.rand_tx(rng, kind=kind, chain=chain)
+                cases.append(Case("cli.sign_tx %s - default %s %d %d" % (mn_, hx(j), so, allow), tags=("cli", "kind:" + kind, "allow:%d" % allow), runner="cli", meta={"via": {}, "via_file": False}))
     # which kind a document is: every subset of the pricing / access-list fields, with and without chain id
     for j, sub, wc in txgen.field_mixes(rng):
         cases.append(Case("tx.sign %s %s" % (hx(j), key()), tags=("field-mix", "fields:" + sub)))
@@ -76,3 +102,8 @@ def extra_checks(cases, impl, model, verdicts, tier, rng, cov):
     if len(par) < 2:
         return [("infra", "generator did not reach both parities", {})]
     return []
+
+
+def run_cli(case):
+    from vlib import cli
+    return cli.run_cli(case)
